@@ -53,7 +53,7 @@ def gen_array(rnd, shape, dt, fuzzy, mask_p, hostile=False, big=False, fine=Fals
     if zeros:
         vals = [0 if rnd.random() < 0.4 else v for v in vals]
     mask = [rnd.random() < mask_p for _ in range(L)]
-    if all(mask) and L:
+    if all(mask) and L and mask_p < 1.0:
         mask[rnd.randrange(L)] = False
     isint = dt in NP_INT
     hid = [(rnd.choice([h for h in HIDDEN_I if abs(h) < 120] if dt == "DInt8" else (HIDDEN_I[:3] if isint else HIDDEN_F)) if m else v)
@@ -98,6 +98,8 @@ def gen_case(rnd, cname, prop, shape=None):
         if prop in ("C05", "C03") and rnd.random() < 0.6:
             shape = rnd.choice([(2, 3), (1, 4), (3, 1), (2, 2), (2, 1, 3), (1, 1, 2), (2, 2, 2), (3, 2)])
     mask_p = rnd.choice([0.0, 0.15, 0.3, 0.5]) if prop != "C03" else rnd.choice([0.2, 0.35, 0.5])
+    if rnd.random() < 0.04:
+        mask_p = 1.0       # an input with no valid cell at all (e.g. the result of a division by an all-zero layer)
     n = 1
     if cname in cc.NARY:
         n = rnd.choice([1, 2, 2, 3, 3, 4, 5])
@@ -162,6 +164,9 @@ def gen_case(rnd, cname, prop, shape=None):
         p["Weights"] = [rnd.choice(pool) for _ in range(k)]
         if prop == "C07" and rnd.random() < 0.05 and k >= 2:   # zero-sum weights
             p["Weights"][-1] = -sum(p["Weights"][:-1])
+        if "DInt8" in dts:
+            # an integer weight multiplies inside the narrow type (numpy semantics, legitimate wrap-around: 6 * 100 > 127); keep products in range
+            p["Weights"] = [(20 if w > 0 else -20) if abs(w) > 20 else w for w in p["Weights"]]
     elif cname == "FuzzySelectedUnion":
         p["TruestOrFalsest"] = rnd.choice(["Truest", "Falsest"]) if rnd.random() < 0.95 else "Neither"
         p["NumberToConsider"] = rnd.randint(1, max(n, 1)) if rnd.random() < 0.93 else n + 1
@@ -240,8 +245,7 @@ def needs_two_distinct(cname):
 
 def sigma_of(cname, arrays):
     if cc.needs_sigma(cname) and arrays:
-        s = float(numpy.ma.std(arrays[0]))
-        return Fr(s)
+        return cc.sigma_oracle(arrays[0])
     return None
 
 
